@@ -738,7 +738,7 @@ func (g *gen) randomFault(st *Step, heavy bool) {
 		st.RPC = &syncrig.RPCFault{Call: r.Intn(4), Kind: vh.Pick(r, "rpc-error", "rpc-error", "http-500", "drop")}
 	}
 	if r.Intn(100) < p {
-		st.DB = &syncrig.DBFault{Op: r.Intn(6), Mode: vh.Pick(r, "stmt", "stmt", "drop", "drop-after-commit"), Sub: r.Intn(8)}
+		st.DB = &syncrig.DBFault{Op: r.Intn(6), Mode: vh.Pick(r, "stmt", "stmt", "drop", "drop-commit", "drop-after-commit"), Sub: r.Intn(8)}
 	}
 }
 
@@ -900,6 +900,7 @@ func sweepScenarios(full bool) []*Scenario {
 			for op := 0; op < 6; op++ {
 				add(step, nil, &syncrig.DBFault{Op: op, Mode: "stmt", Sub: 0})
 				add(step, nil, &syncrig.DBFault{Op: op, Mode: "drop-after-commit"})
+				add(step, nil, &syncrig.DBFault{Op: op, Mode: "drop-commit"})
 				if full {
 					for sub := 1; sub < 4; sub++ {
 						add(step, nil, &syncrig.DBFault{Op: op, Mode: "stmt", Sub: sub})
@@ -964,7 +965,7 @@ func main() {
 	w := &world{run: run, rig: rig, empty: rig.PG.Store().Snapshot()}
 	t0 := time.Now()
 	exec := func(sc *Scenario) {
-		if rig.Broken || (!run.Thorough && time.Since(t0) > 150*time.Second) {
+		if rig.Broken || (!run.Thorough && time.Since(t0) > 75*time.Second) {
 			run.Dist["skipped:rig-broken-or-time-budget"]++
 			return
 		}
